@@ -221,8 +221,14 @@ impl PoolImpl {
             Cert::FastFinal(ff_cert) => {
                 info!("fast finalized slot {slot}");
                 let hash = ff_cert.block_hash().clone();
-                let finalization_event = self.finality_tracker.mark_fast_finalized((slot, hash));
+                let block_id = (slot, hash);
+                let finalization_event = self
+                    .finality_tracker
+                    .mark_fast_finalized(block_id.clone());
                 self.handle_finalization(finalization_event).await;
+
+                // a fast-finalized block is certified as well, children may be waiting for that
+                self.notify_waiting_children(&block_id).await;
             }
             Cert::Final(_) => {
                 info!("slow finalized slot {slot}");
